@@ -63,6 +63,7 @@ type c16In struct {
 	Orders     []c16Order `json:"orders"`
 	Steps      []c16Step  `json:"steps"`
 	Concurrent bool       `json:"concurrent,omitempty"` // orders run as free goroutines; Steps is one serialization
+	E2E        *c16E2E    `json:"e2e,omitempty"`        // whole orders through the real ACMEIssuer and the mock CA (c16_e2e.go)
 }
 
 type c16Obs struct {
@@ -86,6 +87,7 @@ type c16Env struct {
 	hung    bool
 	seq     int
 	own     c15OwnAnswers
+	x       *c16E2EEnv
 }
 
 func c16NewEnv() *c16Env {
@@ -113,6 +115,7 @@ type c16Hist struct {
 	provider *doubles.DNSProviderDouble
 	dnsSolv  *certmagic.DNS01Solver
 	ik       string
+	preMem   map[string]bool // e2e: activeChallenges keys that existed before the scenario (everything else is reported)
 }
 
 // setup instantiates the symbolic history: fresh ports, unique identifiers, real solver stacks.
@@ -254,7 +257,7 @@ func (e *c16Env) observe(h *c16Hist, err error) c16Snap {
 		keys[c15KeyOf(c)] = true
 	}
 	for _, m := range certmagic.VerifActiveChallenges() {
-		if keys[m.Key] {
+		if (h.preMem == nil && keys[m.Key]) || (h.preMem != nil && !h.preMem[m.Key]) {
 			s.mem = append(s.mem, m)
 		}
 	}
@@ -412,6 +415,9 @@ func c16EncSnap(enc *emit.Enc, s c16Snap, h *c16Hist) c16Obs {
 
 // runHistory executes one history and emits its case.
 func (e *c16Env) runHistory(w *emit.Writer, in c16In, desc map[string]any, r *rand.Rand, e2eEvery int) error {
+	if in.E2E != nil {
+		return e.runE2E(w, in, desc, r)
+	}
 	h, err := e.setup(in, r)
 	if err != nil {
 		return err
@@ -551,6 +557,7 @@ func (e *c16Env) runHistory(w *emit.Writer, in c16In, desc map[string]any, r *ra
 			}
 		}
 	}
+	enc.Len(0) // no end-to-end items
 	for k, v := range desc {
 		if s, ok := v.(string); ok {
 			w.Hist(k + "=" + s)
@@ -633,6 +640,7 @@ func runC16(tier string, seed int64, outdir string, replay string) (retErr error
 	defer w.Close()
 	env := c16NewEnv()
 	defer env.stop()
+	defer env.closeE2E()
 	r := rand.New(rand.NewSource(seed))
 	thorough := tier == "thorough"
 	w.Meta.Rule = "distinct histories with at least two orders (sharing a listener address or a DNS record name, or side by side) or at least one injected fault"
@@ -641,6 +649,14 @@ func runC16(tier string, seed int64, outdir string, replay string) (retErr error
 			Name:   fmt.Sprintf("a pending HTTP-01 / TLS-ALPN-01 challenge is answered over the network through the solver's own listener (%d validations)", env.e2eOK+len(env.e2eBad)),
 			OK:     len(env.e2eBad) == 0,
 			Detail: strings.Join(env.e2eBad, "; ")})
+		w.Meta.Oracles = append(w.Meta.Oracles, env.own.check())
+		if env.x != nil {
+			w.Meta.Oracles = append(w.Meta.Oracles, emit.OracleCheck{
+				Name:   fmt.Sprintf("acmez's calling discipline, observed on the recorded DNS-01 solver during real orders against the mock CA: per challenge Present once, [Wait], then CleanUp exactly once, also after a failed Present (%d challenges)", env.x.discN),
+				OK:     len(env.x.discBad) == 0,
+				Detail: strings.Join(env.x.discBad, "; ")})
+			w.Meta.Notes = append(w.Meta.Notes, fmt.Sprintf("end-to-end: %d Issue calls through the real ACMEIssuer against the mock CA, %d certificates issued", env.x.nOrders, env.x.issued))
+		}
 		w.Meta.Notes = append(w.Meta.Notes, "acmez discipline (oracle, from client.go solveChallenges of acmez v3.1.2): Present once per chosen authorization, CleanUp exactly once afterwards, also when Present failed")
 	}()
 	if replay != "" {
@@ -701,6 +717,44 @@ func runC16(tier string, seed int64, outdir string, replay string) (retErr error
 	if err := run(c16In{Honour: true, Addrs: []string{"free"}, Orders: []c16Order{O("tlsalpn", 0, "a"), O("tlsalpn", 0, "b")},
 		Steps: []c16Step{{Order: 0}, {Order: 1, Cancel: true}, {Clean: true, Order: 1, Cancel: true}, {Clean: true, Order: 0}}}, map[string]any{"class": "present-store-fails", "shape": "corpus"}); err != nil {
 		return err
+	}
+
+	// ---- E2E. whole orders through the real ACMEIssuer against the mock ACME CA
+	{
+		type sc struct {
+			shape, kind, variant string
+			honour               bool
+			quick                bool
+		}
+		var scs []sc
+		for _, kind := range []string{"http", "tlsalpn", "dns"} {
+			scs = append(scs, sc{"single", kind, "success", false, true}, sc{"single", kind, "ca-rejects", false, true},
+				sc{"single", kind, "cancel", true, true}, sc{"single", kind, "cancel", false, false},
+				sc{"two", kind, "both-succeed", false, true}, sc{"two", kind, "first-rejected", false, kind != "dns"}, sc{"two", kind, "first-cancelled", true, kind == "dns"},
+				sc{"multi", kind, "success", false, kind != "tlsalpn"})
+			if kind != "dns" {
+				scs = append(scs, sc{"single", kind, "bind-error", false, kind == "http"}, sc{"single", kind, "occupied-dumb", false, kind == "tlsalpn"},
+					sc{"single", kind, "occupied-answering", false, true}, sc{"single", kind, "store-fails", false, kind == "tlsalpn"},
+					sc{"single", kind, "token-delete-fails", false, false})
+			} else {
+				scs = append(scs, sc{"single", kind, "append-fails", false, true}, sc{"single", kind, "record-delete-fails", false, true})
+			}
+		}
+		rounds := 1
+		if thorough {
+			rounds = 3
+		}
+		for round := 0; round < rounds; round++ {
+			for _, x := range scs {
+				if !thorough && !x.quick {
+					continue
+				}
+				in := c16E2EIn(x.shape, x.kind, x.variant, x.honour != (round == 1))
+				if err := run(in, map[string]any{"shape": "e2e-" + x.shape, "e2e_kind": x.kind, "e2e_variant": x.variant}); err != nil {
+					return err
+				}
+			}
+		}
 	}
 
 	// ---- A. two orders on one address, every interleaving, every kind pairing
